@@ -206,6 +206,42 @@ def mergeModel {α} (segs : List (Segment α)) : Segment α :=
     alive := List.replicate tbl.length true
     terms := (mergedTerms segs).map fun t => (t.1, t.2.2) }
 
+/-- `segment.meta().num_docs() > 0` -/
+def hasLive {α} (s : Segment α) : Bool := decide (0 < s.alive.count true)
+
+/-- mirrors: src/indexer/merger.rs::IndexMerger::open_with_custom_alive_set — only the sources
+that still hold a live document become readers of the merge -/
+def mergeReaders {α} (segs : List (Segment α)) : List (Segment α) := segs.filter hasLive
+
+/-! ### an arbitrary doc-id mapping (`MappingType::Shuffled`: merges of a sorted index) -/
+
+/-- postings of `k` of all sources, each remapped through the filled old→new tables -/
+def remapAllFrom {α} (m : Tables) (k : Key) : Nat → List (Segment α) → List Posting
+  | _, [] => []
+  | i, s :: rest => remapPostings m i (postingsOf s.terms k) ++ remapAllFrom m k (i + 1) rest
+
+/-- mirrors: src/indexer/merger.rs::write_postings_for_field, non-trivial mapping: the remapped
+postings of all sources are collected and `sort_unstable_by_key(doc_id)` before they are written -/
+def shuffledPostings {α} (segs : List (Segment α)) (tbl : List (Nat × Nat)) (k : Key) : List Posting :=
+  (remapAllFrom (fillFrom (emptyTables segs) 0 tbl) k 0 segs).mergeSort fun a b => a.doc ≤ b.doc
+
+/-- per-document data through an arbitrary table (`write_fieldnorms`, shuffled columnar merge) -/
+def shuffledDocs {α} (segs : List (Segment α)) (tbl : List (Nat × Nat)) : List α := copyDocs segs tbl
+
+/-- mirrors: src/indexer/merger.rs::write_storable_fields, non-trivial mapping: one raw-document
+iterator per source over its ALIVE documents; for every entry of the new→old table the NEXT
+document of that source's iterator is stored (`none` = "unexpected missing document in docstore
+on merge") -/
+def storeIter {α} : List (List α) → List (Nat × Nat) → Option (List α)
+  | _, [] => some []
+  | iters, a :: rest =>
+    match iters[a.1]? with
+    | some (x :: xs) => (storeIter (iters.set a.1 xs) rest).map (x :: ·)
+    | _ => none
+
+def storeIters {α} (segs : List (Segment α)) : List (List α) :=
+  segs.map fun s => liveDocs s.docs s.alive
+
 /-! ### well-formedness of a physical segment -/
 
 /-- strictly increasing doc ids below `n` -/
@@ -387,10 +423,23 @@ inductive Ev
   | commit
   | rollback
   | deleteAll
+  /-- `SegmentManager::remove_empty_segments` (run by `committed_segment_metas` whenever meta.json
+  is written): committed segments without a live document leave the register and meta.json -/
+  | removeEmpty
   | startMerge (ids : List Nat)
+  /-- explicit `IndexWriter::merge(ids)`: `make_merge_operation` always takes the last commit's
+  opstamp as target, also for UNCOMMITTED sources (no stamp is drawn) -/
+  | startMergeExplicit (ids : List Nat)
   | endMerge
 
 def inSources (ids : List Nat) (e : Entry) : Bool := ids.contains e.segId
+
+/-- the segment still holds a live document -/
+def nonEmpty (e : Entry) : Bool := !(liveDocs e.docs e.alive).isEmpty
+
+/-- mirrors: src/indexer/segment_manager.rs::remove_empty_segments (+ the meta.json written next) -/
+def removeEmpty (st : State) : State :=
+  { st with committed := st.committed.filter nonEmpty, published := st.published.filter nonEmpty }
 
 def Sys.init : Sys :=
   { st := { queue := [], committed := [], uncommitted := [], committedOpstamp := 0, published := [],
@@ -406,6 +455,7 @@ def Sys.step (s : Sys) : Ev → Sys
   | .commit => { s with st := commit s.st s.stamp, stamp := s.stamp + 1 }
   | .rollback => { s with st := rollback s.st }
   | .deleteAll => { s with st := deleteAll s.st }
+  | .removeEmpty => { s with st := removeEmpty s.st }
   | .startMerge ids =>
     match s.running with
     | some _ => s
@@ -422,10 +472,43 @@ def Sys.step (s : Sys) : Ev → Sys
             (mergeTarget true s.st.committedOpstamp s.stamp) s.nextId, s.st.epoch⟩,
           nextId := s.nextId + 1 }
       else s
+  | .startMergeExplicit ids =>
+    match s.running with
+    | some _ => s
+    | none =>
+      if ids = [] then s
+      else if containsAll s.st.uncommitted ids then
+        { s with
+          running := some ⟨ids, mergeEntries s.st.queue (s.st.uncommitted.filter (inSources ids))
+            s.st.committedOpstamp s.nextId, s.st.epoch⟩,
+          nextId := s.nextId + 1 }
+      else if containsAll s.st.committed ids then
+        { s with
+          running := some ⟨ids, mergeEntries s.st.queue (s.st.committed.filter (inSources ids))
+            s.st.committedOpstamp s.nextId, s.st.epoch⟩,
+          nextId := s.nextId + 1 }
+      else s
   | .endMerge =>
     match s.running with
     | none => s
     | some r => { s with st := endMerge s.st r, running := none }
+
+/-- the side condition under which an explicit merge of UNCOMMITTED segments is covered: after
+`advance_deletes` to the commit opstamp (which consumes nothing new) all sources sit at one
+delete-cursor position — i.e. no `delete_term` was issued between the creation of two of them.
+Without it: the recorded finding `C04:explicit-merge-uncommitted-first-cursor`. -/
+def ExplicitOk (s : Sys) : Ev → Prop
+  | .startMergeExplicit ids =>
+    s.running = none → ids ≠ [] → containsAll s.st.uncommitted ids = true →
+      ∃ c0, ∀ e ∈ s.st.uncommitted.filter (inSources ids),
+        (advance s.st.queue e s.st.committedOpstamp).cursor = c0
+  | _ => True
+
+/-- every explicit merge of uncommitted segments in the event sequence satisfies `ExplicitOk` at
+the moment it is issued -/
+def OkTrace : Sys → List Ev → Prop
+  | _, [] => True
+  | s, ev :: rest => ExplicitOk s ev ∧ OkTrace (s.step ev) rest
 
 def Sys.run (s : Sys) (evs : List Ev) : Sys := evs.foldl Sys.step s
 
@@ -444,7 +527,9 @@ def Abs.step (a : Abs) : Ev → Abs
   | .commit => { a with pub := a.pend }
   | .rollback => { a with pend := a.pub }
   | .deleteAll => { a with pend := [] }
+  | .removeEmpty => a
   | .startMerge _ => a
+  | .startMergeExplicit _ => a
   | .endMerge => a
 
 def Abs.run (a : Abs) (evs : List Ev) : Abs := evs.foldl Abs.step a
@@ -528,6 +613,22 @@ def Sys.stepG (s : Sys) : Ev → Sys
             (mergeTargetG true s.st.committedOpstamp s.stamp) s.nextId, s.st.epoch⟩,
           nextId := s.nextId + 1 }
       else s
+  | .startMergeExplicit ids =>
+    match s.running with
+    | some _ => s
+    | none =>
+      if ids = [] then s
+      else if containsAll s.st.uncommitted ids then
+        { s with
+          running := some ⟨ids, mergeEntriesG s.st.queue (s.st.uncommitted.filter (inSources ids))
+            s.st.committedOpstamp s.nextId, s.st.epoch⟩,
+          nextId := s.nextId + 1 }
+      else if containsAll s.st.committed ids then
+        { s with
+          running := some ⟨ids, mergeEntriesG s.st.queue (s.st.committed.filter (inSources ids))
+            s.st.committedOpstamp s.nextId, s.st.epoch⟩,
+          nextId := s.nextId + 1 }
+      else s
   | .endMerge =>
     match s.running with
     | none => s
@@ -555,7 +656,9 @@ inductive EvM
   | commit
   | rollback
   | deleteAll
+  | removeEmpty
   | startMerge (ids : List Nat)
+  | startMergeExplicit (ids : List Nat)
   | endMerge (i : Nat)
 
 def EvM.toEv : EvM → Ev
@@ -564,7 +667,9 @@ def EvM.toEv : EvM → Ev
   | .commit => .commit
   | .rollback => .rollback
   | .deleteAll => .deleteAll
+  | .removeEmpty => .removeEmpty
   | .startMerge ids => .startMerge ids
+  | .startMergeExplicit ids => .startMergeExplicit ids
   | .endMerge _ => .endMerge
 
 def SysM.view (s : SysM) (r : Option Running) : Sys := ⟨s.st, r, s.stamp, s.nextId⟩
@@ -581,5 +686,10 @@ def SysM.step (s : SysM) : EvM → SysM
     { st := s1.st, running := s.running ++ s1.running.toList, stamp := s1.stamp, nextId := s1.nextId }
 
 def SysM.run (s : SysM) (evs : List EvM) : SysM := evs.foldl SysM.step s
+
+/-- `OkTrace` for the machine with several merges in flight -/
+def OkTraceM : SysM → List EvM → Prop
+  | _, [] => True
+  | s, ev :: rest => ExplicitOk (s.view none) ev.toEv ∧ OkTraceM (s.step ev) rest
 
 end TantivyModel.Merge
